@@ -239,6 +239,63 @@ def observe_one_object_recovery(path: Path, k2: bytes, v2: bytes, k3: bytes, v3:
             "raw": Path(path).read_bytes(), "lead": outs[:5] + outs[5 + len(keys):]}
 
 
+def observe_stale_handle_recovery(path: Path, base: bytes, img: bytes, k2: bytes, v2: bytes, keys) -> dict:
+    """a handle object that cached the library BEFORE the crashed session (opened read-only on the committed file, closed)
+    is the one that meets the crash image: reopened 'r' (lists, reads), closed, reopened 'a', put, closed; then a fresh reader"""
+    from molli.storage.ukvfile import UKVFile
+
+    outs = []
+    Path(path).write_bytes(base)
+    f = None
+    try:
+        f = UKVFile(path, "r")
+        outs.append("ok")
+    except Exception as e:
+        outs.append(err_token(e, "new"))
+
+    def step(fn, op):
+        if f is None:
+            outs.append("err:no-handle")
+            return
+        try:
+            fn()
+            outs.append("ok")
+        except Exception as e:
+            outs.append(err_token(e, op))
+    step(lambda: f.close(), "close")
+    Path(path).write_bytes(img)                 # the session of another handle ran and died
+    step(lambda: f.open("r"), "reopen")
+    listed = None
+    vals = {}
+    if f is not None:
+        try:
+            listed = list(f.keys())
+            outs.append(keys_token(listed))
+        except Exception as e:
+            outs.append(err_token(e, "keys"))
+    else:
+        outs.append("err:no-handle")
+    for k in keys:
+        if f is None:
+            outs.append("err:no-handle")
+            continue
+        try:
+            v = f.get(k)
+            vals[k] = v
+            outs.append("val:" + hx(v))
+        except Exception as e:
+            outs.append(err_token(e, "get"))
+    step(lambda: f.close(), "close")
+    step(lambda: f.open("a"), "reopen")
+    step(lambda: f.put(k2, v2), "put")
+    step(lambda: f.close(), "close")
+    nlead = len(outs)
+    ro = observe_open(path, "r", list(keys) + [k2])
+    return {"outs": outs + ro["outs"], "listed": ro["listed"], "vals": ro["vals"], "file": hx(Path(path).read_bytes()),
+            "raw": Path(path).read_bytes(), "stale_listed": listed, "stale_vals": vals,
+            "lead": outs[:3] + outs[4 + len(keys):nlead]}
+
+
 # ------------------------------------------------------------------ independent scanner (oracle)
 def scan_file(data: bytes):
     """independent re-parse: returns (header dict, [(key, value)], clean) where clean means the blocks tile
@@ -284,7 +341,7 @@ def oracle_crash(ctx, mode, obs, committed: dict, session: dict, session_list, t
 def oracle_append(ctx, obs, committed: dict, session_list, new, tag):
     k2, v2 = new
     nlead = 5 if tag.get("mode") == "r,a+put" else 3
-    if tag.get("mode") == "one-object":
+    if tag.get("mode") in ("one-object", "stale-handle"):
         bad = [t for t in obs["lead"] if t.startswith("err:")]
         if bad:
             ctx.violation("C03:recovery-with-one-handle-fails",
